@@ -124,6 +124,10 @@ func baseValid(r *Rng, p int) ClaimsDesc {
 	} else {
 		d.SwKind = SwList
 		n := 1 + r.Intn(4)
+		if r.Chance(4) {
+			// long lists: nothing in the profile bounds their number (a codec option below what the encoder emits shows here)
+			n = Pick(r, []int{32, 33, 40, 129, 300})
+		}
 		for i := 0; i < n; i++ {
 			d.Sw = append(d.Sw, validComp(r))
 		}
